@@ -718,7 +718,10 @@ package internal
 //@   requires r != nil && r.cache != nil
 //@ func (*responseCache).GetRefs
 //@   implements ResponseCache.GetRefs
+//@   property C19 C07 C10 C08
 //@   requires r != nil && r.cache != nil
+//@   assigns indexRead, lastDecodedRefs
+//@   ensures result1 == nil ==> result0 == lastDecodedRefs                                    # name: the-whole-stored-index-is-returned   props: C19 C07
 //@   loop 0 invariant -1 <= rangeindex && rangeindex < len(refs) && (forall j int :: 0 <= j && j <= rangeindex ==> refs[j] != nil)
 
 // ---- variant matching (C04, C10) -----------------------------------------------------------
@@ -770,9 +773,25 @@ package internal
 //@   loop 0 invariant -1 <= rangeindex && rangeindex < len(entries) && allRefsNonNil(entries)
 //@   loop 0 invariant forall j int :: 0 <= j && j <= rangeindex ==> !variantMatches(entries[j], reqHdr)
 
+// Every pair the normaliser yields is (nominated header name, normalised first value of that header
+// in the request). Assumed of the interface; for the production implementation the pair handed to
+// the consumer is an obligation at the yield site (normalizeVaryHeaderSeq2$1$1).
 //@ iface VaryHeaderNormalizer.NormalizeVaryHeader(n, vary, reqHeader)
 //@   pure
 //@   ensures result != nil
+//@   ensures forall j int :: 0 <= j && j < seqLen(result) ==> seqAt2(result, j) == normFirst(reqHeader, seqAt(result, j))
+//@ func normalizeHeaderValue
+//@   trusted
+//@   pure
+//@   ensures result == normValue(field, value)
+//@ fnparam normalizeVaryHeaderSeq2$1$1.yield(name, value)
+//@   requires value == normFirst(*reqHeader, name)                            # name: resolved-value-is-the-requests-normalised-first-value   props: C04
+//@   pure
+//@ func normalizeVaryHeaderSeq2$1$1
+//@   property C04
+//@   nosafety
+//@   requires reqHeader != nil && yield != nil && jump_S_1 != nil
+//@   assigns *
 //@ iface VaryKeyer.VaryKey(k, urlKey, varyHeaders)
 //@   pure
 //@   ensures result == keyFor(urlKey, varyHeaders)
@@ -805,11 +824,16 @@ package internal
 //@   loop 0 invariant 0 <= refIndex && refIndex <= rangeindex ==> len(updated) <= rangeindex
 //@   loop 0 invariant forall j int :: 0 <= j && j < len(updated) ==> updated[j] != nil && !sameVariantS(updated[j], responseID, varyResolved)
 //@   loop 0 invariant lastSetOK && fresh(updated)
+//@   ensures result == nil ==> len(lastRefs) > 0 && (forall f string :: has(lastRefs[len(lastRefs)-1].VaryResolved, f) ==> get(lastRefs[len(lastRefs)-1].VaryResolved, f) == normFirst(req.Header, f))   # name: newest-reference-carries-the-requests-resolved-values   props: C04
 
+// maps.Collect: the keys of the result are the keys yielded; the value under a key is the value
+// of one of the pairs yielded with that key (the last one).
 //@ extern maps.Collect(seq)
 //@   pure
 //@   fresh
 //@   ensures result != nil
+//@   ensures forall k string :: has(result, k) ==> (exists j int :: 0 <= j && j < seqLen(seq) && seqAt(seq, j) == k && get(result, k) == seqAt2(seq, j))
+//@   ensures forall j int :: 0 <= j && j < seqLen(seq) ==> has(result, seqAt(seq, j))
 //@ extern slices.Grow(s, n)
 //@   pure
 //@   ensures len(result) == len(s) && cap(result) >= len(s) + n && (forall i int :: 0 <= i && i < len(s) ==> result[i] == s[i])
@@ -950,10 +974,16 @@ package internal
 // brackets removed); trusted naming of what splitHostPort computes
 //@ spec func hostPartOf(hp string) string
 //@ spec func portPartOf(hp string) string
-//@ func splitHostPort
+//@ spec func allDigits(s string) bool = forall i int :: 0 <= i && i < len(s) ==> s[i] >= 48 && s[i] <= 57
+//@ func validOptionalPort
 //@   trusted
 //@   pure
-//@   ensures host == hostPartOf(hostPort) && port == portPartOf(hostPort)
+//@   ensures result == (port == "" || (port[0] == 58 && allDigits(port[1:len(port)])))
+//@ func splitHostPort
+//@   property C03
+//@   pure
+//@   ensures host == hostPartOf(hostPort) && port == portPartOf(hostPort)                      # ghost-update
+//@   ensures port == "" || (exists c int :: 0 <= c && c < len(hostPort) && hostPort[c] == 58 && port == hostPort[c+1:len(hostPort)] && allDigits(port))   # name: port-is-the-digits-after-a-colon-verbatim
 //@ spec func effPortS(scheme string, hp string) string = ite(portPartOf(hp) == "", ite(scheme == "http", "80", ite(scheme == "https", "443", "")), portPartOf(hp))
 //@ spec func defPortS(scheme string) string = ite(scheme == "http", "80", ite(scheme == "https", "443", ""))
 // lower-cased host, in brackets when it contains a colon (IPv6 literal), followed by ":port" unless the port is the scheme's default
@@ -1030,3 +1060,30 @@ package internal
 //@   property C20
 //@   pure
 //@   ensures result != nil
+
+// ---- lossless strings in the JSON variant index (C04, C09, C19) -----------------------------------
+// encoding/json only round-trips valid UTF-8. jsonEnc(s) is the text written for s, jsonDec(t)
+// the string read back; the lemma says decoding undoes encoding for EVERY byte string, and
+// jsonEnc(s) is always valid UTF-8 (so encoding/json keeps it). b64std / validUTF8 name the
+// assumed behaviour of encoding/base64 (RawStdEncoding) and unicode/utf8.
+//@ spec func validUTF8(s string) bool
+//@ spec func b64std(s string) string
+//@ spec func hasPfx(s string, p string) bool = len(p) <= len(s) && s[:len(p)] == p
+//@ spec func escOf(s string) string
+//@ axiom esc-def: forall s string :: escOf(s) == "\x00b64:" + b64std(s) && validUTF8(escOf(s)) && hasPfx(escOf(s), "\x00b64:") && escOf(s)[5:len(escOf(s))] == b64std(s)
+//@ spec func jsonEnc(s string) string = ite(validUTF8(s) && !hasPfx(s, "\x00b64:"), s, escOf(s))
+// Round trip: whatever s is, jsonEnc(s) is either s itself and not marked (fromJSONSafe returns it
+// as written) or escOf(s) (fromJSONSafe returns s by decoding-undoes-encoding).
+//@ lemma index-strings-round-trip: forall s string :: (jsonEnc(s) == s && !hasPfx(jsonEnc(s), "\x00b64:")) || jsonEnc(s) == escOf(s)
+//@   property C04 C09 C19
+//@ func toJSONSafe
+//@   property C04 C09 C19
+//@   pure
+//@   ensures result == jsonEnc(s)                                             # name: escapes-exactly-what-json-would-corrupt
+//@   ensures validUTF8(result)                                                # name: written-text-survives-encoding-json
+//@ func fromJSONSafe
+//@   property C04 C09 C19
+//@   pure
+//@   ensures !hasPfx(s, "\x00b64:") ==> result0 == s && result1 == nil        # name: plain-strings-read-as-written
+//@   ensures forall x string :: s == escOf(x) ==> result0 == x && result1 == nil                  # name: decoding-undoes-encoding
+
